@@ -111,15 +111,27 @@ def lean_ty(t: Ty, top=True) -> str:
         return "Unit"
     if t.kind == "CharSet":
         return "Char → Bool" if top else "(Char → Bool)"
+    if t.kind == "Abs":
+        return t.args[0]
     if t.kind == "Opt":
         s = "Option " + lean_ty(t.args[0], False)
-    elif t.kind == "List":
+    elif t.kind in ("List", "Set"):
+        # a Python set is modelled as a list (insertion order, kept duplicate-free by `Pre.setAdd`)
         s = "List " + lean_ty(t.args[0], False)
     elif t.kind == "Tup":
         s = " × ".join(lean_ty(a, False) for a in t.args)
     else:
         raise Untranslatable(f"internal: unknown type {t}")
     return s if top else f"({s})"
+
+
+#: names of abstract types (type parameters of a spec: e.g. a quality type with an order supplied
+#: by the hand model); registered by Translator.__init__ from Spec.type_params
+ABSTRACT_TYPES = set()
+
+
+def Abs(name):
+    return Ty("Abs", (name,))
 
 
 def parse_ty(text: str) -> Ty:
@@ -147,6 +159,10 @@ def parse_ty(text: str) -> Ty:
             return BYTES
         if tk == "CharSet":
             return CHARSET
+        if tk in ABSTRACT_TYPES:
+            return Abs(tk)
+        if tk == "Unit":
+            return NONE
         raise Untranslatable(f"bad type text {text!r} at {tk!r}")
 
     def app():
@@ -157,6 +173,9 @@ def parse_ty(text: str) -> Ty:
         if pos < len(toks) and toks[pos] == "List":
             pos += 1
             return Lst(app())
+        if pos < len(toks) and toks[pos] == "Set":
+            pos += 1
+            return Ty("Set", (app(),))
         return atom()
 
     def prod():
@@ -189,6 +208,13 @@ class Fn:
     extra: tuple = ()
     #: indices (into params) of arguments that must be non-empty str/bytes literals
     nonempty_lit: tuple = ()
+    #: a translated stateful method of the same object: the call passes the current values of these
+    #: state keys (e.g. "self._headers") first and gets them back: the result is `State`,
+    #: `State × R` or `State × Except String R` as described at Spec.state
+    state: tuple = ()
+    #: for polymorphic entries: params may contain None (= any plain type, no coercion) and the
+    #: result type is computed from the argument types
+    result_of: object = None
     #: the Lean model covers only part of the Python function's domain and answers with a marker
     #: error outside it: such a call must not sit inside `try` (a handler would swallow the marker)
     partial_model: bool = False
@@ -209,6 +235,7 @@ EXC_PARENT = {
     "ZeroDivisionError": "ArithmeticError",
     "ArithmeticError": "Exception",
     "AttributeError": "Exception",
+    "StopIteration": "Exception",
     "Exception": "BaseException",
     # werkzeug.exceptions
     "HTTPException": "Exception",
@@ -254,6 +281,17 @@ METHODS = {
     ("Str", "strip/1"): Fn("Pre.stripChars", [STR, STR], STR),
     ("Str", "lstrip/1"): Fn("Pre.lstripChars", [STR, STR], STR),
     ("Str", "rstrip/1"): Fn("Pre.rstripChars", [STR, STR], STR),
+}
+
+#: mutating methods of containers (locals or state attributes): (kind, method) ->
+#: (Lean function taking the container first and returning the new one, argument types, raises)
+MUTATORS = {
+    ("List", "append"): ("Pre.listAppend", ["elt"], ()),
+    ("List", "clear"): ("Pre.clear", [], ()),
+    ("Set", "add"): ("Pre.setAdd", ["elt"], ()),
+    ("Set", "discard"): ("Pre.setDiscard", ["elt"], ()),
+    ("Set", "remove"): ("Pre.setRemove", ["elt"], ("KeyError",)),
+    ("Set", "clear"): ("Pre.clear", [], ()),
 }
 
 #: module-level functions and bound methods of module-level objects, by dotted source name
@@ -313,6 +351,27 @@ class Spec:
     #: for `Class.__init__`: the attributes the constructor stores (`self.a = ...`), in order; the
     #: translated function returns them as a tuple (the object). Other attribute stores are refused.
     fields: list = field(default_factory=list)
+    #: abstract types: names usable in type texts; emitted as implicit binders `{a b : Type}`
+    type_params: list = field(default_factory=list)
+    #: {abstract type name: Lean term of its `≤` (α → α → Bool)}: `a <= b` is `le a b`, `a < b` is
+    #: `!(le b a)` (the order is total on the values that occur - an assumption of the spec)
+    orders: dict = field(default_factory=dict)
+    #: {(abstract type name, int literal): Lean term}: what an int literal means in that type
+    abs_lits: dict = field(default_factory=dict)
+    #: {source text of an expression: (Lean term, Lean type text)}: literals of abstract types that
+    #: are not ints, e.g. "(-1,)"
+    literals: dict = field(default_factory=dict)
+    #: {(receiver kind, method name): Fn}: methods of typed local receivers specific to this function
+    methods: dict = field(default_factory=dict)
+    #: a method that reads and writes attributes of `self`: the attribute names (each also listed in
+    #: `params` as ("self.<name>", type)) whose final values the translated function returns, in
+    #: this order. Result: `State` (or `State × R`) for a pure method, `State × Except String R` for
+    #: a raising one - the state *at the moment of the raise*, as in Python.
+    state: list = field(default_factory=list)
+    #: {source text of an expression statement: [(env key, python expression text)]}: calls on
+    #: abstract collaborators whose only modelled effect is to set state flags,
+    #: e.g. {"self.on_update(self)": [("self.notified", "True")]}
+    effects: dict = field(default_factory=dict)
     doc: str = ""
 
 
@@ -323,7 +382,7 @@ LEAN_KEYWORDS = {
     "partial", "unsafe", "for", "by", "suffices", "calc", "Type", "Prop", "Sort", "set_option", "macro", "syntax",
     "notation", "infix", "infixl", "infixr", "postfix", "attribute", "abbrev", "example", "axiom", "opaque",
     "extends", "using", "nomatch", "nofun", "try", "catch", "finally", "unless", "break", "continue", "mut",
-    "rest_", "e_", "some", "none", "true", "false",
+    "rest_", "e_", "some", "none", "true", "false", "matches", "instance", "show", "from", "fun",
 }
 
 
@@ -407,6 +466,12 @@ class NoneUsed(Exception):
 class Var:
     lean: str
     ty: Ty
+    #: for an iterator (`it = iter(xs)`, modelled as the list of items not yet consumed): the env key
+    #: of the container it runs over, whether it is known to be used up, and - inside a loop over
+    #: `enumerate(it)` - the name of the index variable
+    iter_of: str | None = None
+    exhausted: bool = False
+    index_name: str | None = None
 
 
 @dataclass
@@ -415,16 +480,25 @@ class LoopCtx:
     head: str  # leading arguments of a recursive call (captured variables)
     state: list  # python names threaded through
     state_tys: list
+    #: loops with `break`: the result type is `Pre.LoopB` and `.brk` carries, besides the state, the
+    #: variables of the body that the statements after the loop read (`exports`) and - for a loop
+    #: over an iterator - the items not yet consumed
+    has_break: bool = False
+    exports: list = field(default_factory=list)
+    export_tys: list | None = None
+    rest_expr: str | None = None
 
 
 class Translator:
     def __init__(self, spec: Spec, repo=None):
         self.spec = spec
+        ABSTRACT_TYPES.update(spec.type_params)
         self.repo = repo or REPO
         self.path = os.path.join(self.repo, "src", "werkzeug", spec.module)
         self.src = open(self.path).read()
         self.lines = self.src.split("\n")
         self.result_ty = parse_ty(spec.result)
+        self.raises = spec.raises
         self.aux = []  # text of auxiliary definitions (loops), in order
         self.nloops = 0
         self.njoin = 0
@@ -492,20 +566,28 @@ class Translator:
         a = fn.args
         if a.vararg is not None and not any(p == "*" + a.vararg.arg for p, _ in spec.params):
             self.bad(fn, "*args not covered by the signature spec")
-        if a.kwarg is not None or a.kwonlyargs or a.posonlyargs:
-            self.bad(fn, "unsupported parameter kinds")
-        pynames = [x.arg for x in a.args]
+        if a.kwonlyargs:
+            self.bad(fn, "keyword-only parameters")
+        if a.kwarg is not None and spec.static.get(a.kwarg.arg) is not False:
+            # `**kwargs` is only accepted when the spec restricts the function to calls without
+            # keyword arguments (static = {"kwargs": False}: `if kwargs:` is then decided)
+            self.bad(fn, "**kwargs (not restricted to the empty case by the signature spec)")
+        pynames = [x.arg for x in a.posonlyargs] + [x.arg for x in a.args]
         if is_method:
             if not pynames or pynames[0] != "self":
                 self.bad(fn, "method without self")
             pynames = pynames[1:]
         if a.vararg is not None:
             pynames.append("*" + a.vararg.arg)
-        declared = [p for p, _ in spec.params if not p.startswith("self.")]
+        # ("self", ty): the object itself is a value (e.g. a list subclass iterated with `for x in self`)
+        declared = [p for p, _ in spec.params if not p.startswith("self.") and p != "self"]
         if declared != pynames:
             raise Untranslatable(f"{self.where}: parameters are {pynames}, the signature spec declares {declared}")
         env = {}
         binders = []
+        if spec.type_params:
+            binders.append("{" + " ".join(spec.type_params) + " : Type}")
+        self.implicit = binders[0] + " " if binders else ""
         for nm, ty in spec.opaque:
             binders.append(f"({nm} : {ty})")
         for p, ty in spec.params:
@@ -516,7 +598,16 @@ class Translator:
             binders.append(f"({ln} : {lean_ty(t)})")
         self.opaque_args = "".join(" " + nm for nm, _ in spec.opaque)
         rty = lean_ty(self.result_ty)
-        if spec.raises:
+        if spec.state:
+            for f in spec.state:
+                if "self." + f not in env:
+                    raise Untranslatable(f"{self.where}: state attribute {f!r} is not declared in params as ('self.{f}', type)")
+            st_ty = " × ".join(lean_ty(env["self." + f].ty, len(spec.state) == 1) for f in spec.state)
+            if spec.raises:
+                rty = f"({st_ty}) × Except String {_par(rty)}"
+            else:
+                rty = st_ty if self.result_ty == NONE else f"({st_ty}) × {_par(rty)}"
+        elif spec.raises:
             rty = f"Except String ({rty})" if " " in rty else f"Except String {rty}"
         self.ret_lean_ty = rty
         body = self.block(fn.body, env, None, self.fall_off_end(fn))
@@ -550,32 +641,62 @@ class Translator:
 
     # ---- results --------------------------------------------------------
 
-    def wrap_value(self, lean_val: str, loop) -> list:
+    def state_tuple_of(self, env, node, keys=None):
+        keys = ["self." + f for f in self.spec.state] if keys is None else keys
+        items = []
+        for key in keys:
+            if key not in env:
+                self.bad(node, f"state attribute {key} is not defined here")
+            items.append(env[key].lean)
+        return items[0] if len(items) == 1 else "(" + ", ".join(items) + ")"
+
+    def wrap_value(self, lean_val: str, loop, env=None, node=None) -> list:
         s = lean_val
-        if self.spec.raises:
+        if self.spec.state and not getattr(self, "nested_fn", False):
+            st = self.state_tuple_of(env, node)
+            unit = self.result_ty == NONE
+            if self.raises:
+                s = f"({st}, .ok {'()' if unit else (s if _is_atomic_text(s) else '(' + s + ')')})"
+            else:
+                s = st if unit else f"({st}, {s})"
+        elif self.raises:
             s = f".ok ({s})" if not _is_atomic_text(s) else f".ok {s}"
         if loop is not None:
             s = f".ret ({s})" if not _is_atomic_text(s) else f".ret {s}"
         return [s]
 
-    def wrap_error(self, cls_lean: str, node, loop) -> list:
+    def wrap_error(self, cls_lean: str, node, loop, env=None) -> list:
         """cls_lean: a Lean string term (literal or variable)"""
-        if not self.spec.raises:
+        if not self.raises:
             self.bad(node, "the function is declared pure (raises=False) but can raise here")
         s = f".error {cls_lean}"
-        if loop is not None:
+        if self.spec.state and not getattr(self, "nested_fn", False):
+            s = f"({self.state_tuple_of(env, node)}, .error {cls_lean})"
+            if loop is not None:
+                s = f".ret {s}"
+        elif loop is not None:
             s = f".ret ({s})"
         return [s]
 
     def emit_return(self, e: E, node, env, loop):
+        if self.result_ty == NONE and self.spec.state:
+            if e.ty != NONE:
+                self.bad(node, "a method declared to return None returns a value")
+            return self.wrap_value("()", loop, env, node)
         c = self.coerce(e, self.result_ty, node)
-        return self.wrap_value(c.lean, loop)
+        return self.wrap_value(c.lean, loop, env, node)
 
     # ---- coercions ------------------------------------------------------
 
     def coerce(self, e: E, ty: Ty, node) -> E:
         if e.ty == ty:
             return e
+        if ty.kind == "Abs" and e.ty == INT and getattr(e, "intlit", None) is not None:
+            key = (ty.args[0], e.intlit)
+            if key not in self.spec.abs_lits:
+                self.bad(node, f"the spec gives no meaning to the literal {e.intlit} in the abstract type {ty.args[0]}")
+            term = self.spec.abs_lits[key]
+            return E(term, ty, None, _is_atomic_text(term))
         if ty.kind == "Opt":
             inner = ty.args[0]
             if e.ty == NONE:
@@ -620,6 +741,8 @@ class Translator:
             return self.negate(E(f"{P(e)} == 0", BOOL))
         if e.ty == OBJ:
             return TRUE
+        if e.ty.kind == "Tup":
+            return TRUE  # a tuple with at least two items is never empty
         if e.ty.kind == "Opt":
             if e.var is not None:
                 raise NeedUnwrap(e.var, node)  # statement level splits first; reaching here is unguarded
@@ -640,6 +763,21 @@ class Translator:
                 src = None
             if src in self.spec.static:
                 return bconst(bool(self.spec.static[src]))
+        if self.spec.literals:
+            try:
+                src2 = ast.unparse(n)
+            except Exception:  # noqa: BLE001
+                src2 = None
+            if src2 in self.spec.literals:
+                term, ty = self.spec.literals[src2]
+                return E(term, parse_ty(ty), None, _is_atomic_text(term))
+        if not isinstance(n, ast.Call):
+            for matcher, fn in self.spec.patterns:
+                args = matcher(n)
+                if args is not None:
+                    if fn.raises:
+                        self.bad(n, "a raising pattern on a non-call expression")
+                    return self.apply(fn, args, n, env)
         if isinstance(n, ast.Constant):
             v = n.value
             if v is None:
@@ -647,7 +785,9 @@ class Translator:
             if isinstance(v, bool):
                 return bconst(v)
             if isinstance(v, int):
-                return E(str(v), INT, None, True) if v >= 0 else E(f"({v})", INT, None, True)
+                e = E(str(v), INT, None, True) if v >= 0 else E(f"({v})", INT, None, True)
+                e.intlit = v
+                return e
             if isinstance(v, str):
                 e = E(lean_str_lit(v), STR, None, True)
                 e.lit = v
@@ -696,8 +836,12 @@ class Translator:
             return E(" ++ ".join(parts), STR, None, len(parts) == 1)
         if isinstance(n, ast.Tuple):
             items = [self.expr(x, env) for x in n.elts]
+            if len(items) == 1:
+                # `(x,)`: only ever used as an iterable here - the one-element list
+                x = self.plain(items[0], n)
+                return E(f"[{x.lean}]", Lst(x.ty), None, True)
             if len(items) < 2:
-                self.bad(n, "tuple with fewer than two items")
+                self.bad(n, "empty tuple")
             e = E("(" + ", ".join(x.lean for x in items) + ")", Tup(*[x.ty for x in items]), None, True)
             e.items = items
             return e
@@ -717,7 +861,11 @@ class Translator:
                 x = self.plain(self.expr(n.operand, env), n.operand)
                 if x.ty != INT:
                     self.bad(n, "unary minus on a non-int")
-                return E(f"-{P(x)}", INT)
+                e = E(f"-{P(x)}", INT)
+                if getattr(x, "intlit", None) is not None:
+                    e = E(f"({-x.intlit})", INT, None, True)
+                    e.intlit = -x.intlit
+                return e
             self.bad(n, "unsupported unary operator")
         if isinstance(n, ast.BoolOp):
             return self.boolop(n, env)
@@ -739,7 +887,62 @@ class Translator:
             return self.subscript(n, env)
         if isinstance(n, ast.Call):
             return self.call(n, env)
+        if isinstance(n, ast.ListComp):
+            return self.listcomp(n, env)
         self.bad(n, "unsupported expression")
+
+    def target_names(self, t):
+        if isinstance(t, ast.Name):
+            return [t.id]
+        if isinstance(t, ast.Tuple):
+            out = []
+            for x in t.elts:
+                out += self.target_names(x)
+            return out
+        self.bad(t, "target that is not a name or a (nested) tuple of names")
+
+    def destructure(self, t, lean: str, ty: Ty, node):
+        """bind the (nested) tuple target `t` to the value `lean : ty` -> [(python name, lean name, Ty, lean term)]"""
+        if isinstance(t, ast.Name):
+            return [(t.id, lean_name(t.id), ty, lean)]
+        if not isinstance(t, ast.Tuple) or ty.kind != "Tup" or len(ty.args) != len(t.elts):
+            self.bad(node, f"unpacking a {ty} into `{ast.unparse(t)}`")
+        out, m = [], len(t.elts)
+        for i, x in enumerate(t.elts):
+            proj = ".2" * i + (".1" if i < m - 1 else "")
+            out += self.destructure(x, f"{lean}{proj}", ty.args[i], node)
+        return out
+
+    def listcomp(self, n, env) -> E:
+        """`[elt for tgt in xs if c1 if c2]` (one `for`; no walrus - see stmt for that form) as a
+        `filter` followed by a `map`"""
+        if len(n.generators) != 1 or n.generators[0].is_async:
+            self.bad(n, "comprehension with several `for` clauses")
+        g = n.generators[0]
+        for x in ast.walk(n):
+            if isinstance(x, ast.NamedExpr):
+                self.bad(n, "assignment expression inside a comprehension that is not the whole right-hand side of an assignment")
+        it = self.plain(self.expr(g.iter, env), g.iter)
+        if it.ty.kind != "List":
+            self.bad(n, f"comprehension over a {it.ty}")
+        elt_ty = it.ty.args[0]
+        self.tmp += 1
+        x = f"x{self.tmp}_" if not isinstance(g.target, ast.Name) else lean_name(g.target.id)
+        env2 = dict(env)
+        lets = ""
+        for py, ln, ty, term in self.destructure(g.target, x, elt_ty, n):
+            env2[py] = Var(ln, ty)
+            drop_facts(env2, py)
+            if term != ln:
+                lets += f"let {ln} : {lean_ty(ty)} := {term}; "
+        cur = P(it)
+        for c in g.ifs:
+            cond = self.cond(c, env2)
+            cur = f"({cur}.filter fun {x} => {lets}{cond.lean})"
+        elt = self.plain(self.expr(n.elt, env2), n.elt) if not isinstance(n.elt, ast.Tuple) else self.expr(n.elt, env2)
+        if elt.var is not None and isinstance(g.target, ast.Name) and elt.var == g.target.id:
+            return E(cur, Lst(elt_ty), None, True)
+        return E(f"{cur}.map fun {x} => {lets}{elt.lean}", Lst(elt.ty))
 
     def join_ty(self, a: Ty, b: Ty, node) -> Ty:
         if a == b:
@@ -864,7 +1067,7 @@ class Translator:
                 a = self.plain(a, ln)
                 if a.ty == b.ty and a.ty in (STR, BYTES):
                     r = E(f"Pre.contains {P(b)} {P(a)}", BOOL)
-                elif b.ty.kind == "List" and b.ty.args[0] == a.ty:
+                elif b.ty.kind in ("List", "Set") and b.ty.args[0] == a.ty:
                     r = E(f"{P(b)}.contains {P(a)}", BOOL)
                 else:
                     self.bad(node, f"`in` between {a.ty} and {b.ty}")
@@ -882,6 +1085,19 @@ class Translator:
         if sym is None:
             self.bad(node, "unsupported comparison operator")
         a, b = self.plain(a, ln), self.plain(b, rn)
+        abs_ty = a.ty if a.ty.kind == "Abs" else (b.ty if b.ty.kind == "Abs" else None)
+        if abs_ty is not None:
+            a, b = self.coerce(a, abs_ty, node), self.coerce(b, abs_ty, node)
+            le = self.spec.orders.get(abs_ty.args[0])
+            if le is None:
+                self.bad(node, f"the spec declares no order for the abstract type {abs_ty.args[0]}")
+            if sym == "≤":
+                return E(f"{le} {P(a)} {P(b)}", BOOL)
+            if sym == "≥":
+                return E(f"{le} {P(b)} {P(a)}", BOOL)
+            if sym == "<":
+                return self.negate(E(f"{le} {P(b)} {P(a)}", BOOL))
+            return self.negate(E(f"{le} {P(a)} {P(b)}", BOOL))
         if a.ty != INT or b.ty != INT:
             self.bad(node, f"ordering comparison between {a.ty} and {b.ty} (only ints are supported)")
         return E(f"decide ({a.lean} {sym} {b.lean})", BOOL)
@@ -980,6 +1196,20 @@ class Translator:
             self.bad(n, "call of a local variable")
         if isinstance(f, ast.Name) and f.id in ("len", "min", "max", "any", "all", "isinstance", "bool", "str"):
             return None
+        if isinstance(f, ast.Name) and f.id == "iter" and len(n.args) == 1:
+            # an iterator = the list of items not yet consumed (see Var.iter_of)
+            return Fn("Pre.iterOf", [None], None, result_of=lambda ts: ts[0] if ts[0].kind == "List" else None), list(n.args)
+        if isinstance(f, ast.Name) and f.id == "enumerate" and len(n.args) == 1:
+            return Fn("Pre.enumerate", [None], None, result_of=lambda ts: Lst(Tup(INT, ts[0].args[0])) if ts[0].kind == "List" else None), list(n.args)
+        if isinstance(f, ast.Name) and f.id == "zip" and len(n.args) == 2:
+            return Fn("List.zip", [None, None], None, result_of=lambda ts: Lst(Tup(ts[0].args[0], ts[1].args[0])) if ts[0].kind == "List" and ts[1].kind == "List" else None), list(n.args)
+        if isinstance(f, ast.Name) and f.id == "next" and len(n.args) == 1 and isinstance(n.args[0], ast.GeneratorExp):
+            # next(<generator expression>): the first item, or StopIteration
+            g = n.args[0]
+            lc = ast.ListComp(elt=g.elt, generators=g.generators)
+            ast.copy_location(lc, g)
+            ast.fix_missing_locations(lc)
+            return Fn("Pre.nextOf", [None], None, raises=("StopIteration",), result_of=lambda ts: ts[0].args[0] if ts[0].kind == "List" else None), [lc]
         args = list(n.args)
         if any(isinstance(a, ast.Starred) for a in args):
             # f(*xs): only as the single argument, mapped to a dedicated table entry "f(*)"
@@ -987,6 +1217,9 @@ class Translator:
                 self.bad(n, "starred argument mixed with other arguments")
             d = d + "(*)"
             args = [args[0].value]
+        if d is not None and d in self.spec.calls and "." in d:
+            # an explicitly declared method of `self` / of a module wins over the receiver's type
+            return self.spec.calls[d], args
         if d is not None:
             root = d.split(".")[0]
             known_value = root in env or any(d.startswith(c + ".") for c in list(env) + list(self.spec.consts))
@@ -1001,6 +1234,8 @@ class Translator:
             key = (recv.ty.kind, f.attr)
             if key not in METHODS:
                 key = (recv.ty.kind, f"{f.attr}/{len(n.args)}")  # arity-dependent methods
+            if (recv.ty.kind, f.attr) in self.spec.methods:
+                return self.spec.methods[(recv.ty.kind, f.attr)], [f.value] + list(n.args)
             if key in METHODS:
                 return METHODS[key], [f.value] + list(n.args)
             self.bad(n, f"method {f.attr!r} of a {recv.ty} is not in py2lean's METHODS table")
@@ -1032,12 +1267,17 @@ class Translator:
             a = args[i]
             if not (isinstance(a, ast.Constant) and isinstance(a.value, (str, bytes)) and len(a.value) > 0):
                 self.bad(n, f"argument {i} of {fn.lean} must be a non-empty literal (Python raises ValueError for an empty one)")
-        out = []
+        out, tys = [], []
         for a, t in zip(args, fn.params):
             x = self.expr(a, env)
-            out.append(P(self.coerce(x, t, n)))
+            x = self.plain(x, n) if t is None else self.coerce(x, t, n)
+            tys.append(x.ty)
+            out.append(P(x))
         extra = "".join(" " + x for x in fn.extra)
-        return E(f"{fn.lean}{extra} " + " ".join(out) if out else f"{fn.lean}{extra}", fn.result)
+        rty = fn.result_of(tys) if fn.result_of is not None else fn.result
+        if rty is None:
+            self.bad(n, f"{fn.lean} is not defined for arguments of types {[str(t) for t in tys]}")
+        return E(f"{fn.lean}{extra} " + " ".join(out) if out else f"{fn.lean}{extra}", rty)
 
     def builtin(self, n, env) -> E:
         name = n.func.id
@@ -1114,6 +1354,19 @@ class Translator:
         found = []
 
         def walk(x, lazy):
+            if not isinstance(x, ast.Call) and isinstance(x, ast.expr):
+                for matcher, fn_ in self.spec.patterns:
+                    args_ = matcher(x)
+                    if args_ is not None:  # an expression-level pattern hides its inner calls
+                        for a in args_:
+                            if isinstance(a, ast.AST):
+                                walk(a, lazy)
+                        return
+            if isinstance(x, ast.ListComp):
+                # the comprehension is translated as a whole (filter / map): raising calls inside
+                # it are refused there
+                walk(x.generators[0].iter, lazy)
+                return
             if isinstance(x, ast.Call):
                 try:
                     res = self.resolve_call(x, env)
@@ -1184,6 +1437,8 @@ class Translator:
         if not stmts:
             return k(env, loop)
         s, rest = stmts[0], stmts[1:]
+        if isinstance(s, ast.For):
+            s._py2lean_rest = rest
 
         def k2(env2, loop2):
             return self.block(rest, env2, loop2, k)
@@ -1231,23 +1486,64 @@ class Translator:
         try:
             return fn(env)
         except NeedUnwrap as u:
-            if not self.spec.raises:
+            if not self.raises:
                 self.bad(u.node, f"{u.name!r} may be None here (possible TypeError) and the function is declared pure")
             v = env[u.name]
             env2 = dict(env)
             env2[u.name] = Var(v.lean, v.ty.args[0])
             inner = self.guarded(node, env2, loop, fn)
-            return [f"match {v.lean} with", "| none =>"] + ind(self.wrap_error('"TypeError"', node, loop)) + [f"| some {v.lean} =>"] + ind(inner)
+            return [f"match {v.lean} with", "| none =>"] + ind(self.wrap_error('"TypeError"', node, loop, env)) + [f"| some {v.lean} =>"] + ind(inner)
         except NoneUsed as u:
-            if not self.spec.raises:
+            if not self.raises:
                 self.bad(u.node, f"{u.name!r} is None here (TypeError) and the function is declared pure")
-            return self.wrap_error('"TypeError"', node, loop)
+            return self.wrap_error('"TypeError"', node, loop, env)
 
     def stmt(self, s, env, loop, k):
         if isinstance(s, ast.Expr) and isinstance(s.value, ast.Constant) and isinstance(s.value.value, str):
             return k(env, loop)  # docstring
         if isinstance(s, ast.Pass):
             return k(env, loop)
+        # --- `return self.m(args)` / `x = self.m(args)` for a translated stateful method
+        if isinstance(s, (ast.Return, ast.Assign)) and isinstance(s.value, ast.Call):
+            try:
+                res0 = self.resolve_call(s.value, env)
+            except (Untranslatable, NeedUnwrap, NoneUsed):
+                res0 = None
+            if res0 is not None and res0[0].state:
+                if isinstance(s, ast.Return):
+                    return self.comment(s) + self.stateful_call(s, s.value, res0, env, loop, None, lambda e, env2: self.emit_return(e, s, env2, loop))
+                if len(s.targets) == 1:
+                    return self.comment(s) + self.stateful_call(s, s.value, res0, env, loop, None, lambda e, env2: self.bind(s.targets[0], e, s, env2, loop, k))
+        # --- effects of abstract collaborators (spec.effects)
+        if isinstance(s, ast.Expr) and self.spec.effects:
+            src = ast.unparse(s.value)
+            if src in self.spec.effects:
+                stmts = []
+                for key, text in self.spec.effects[src]:
+                    a = ast.Assign(targets=[ast.Name(id="<key>" + key, ctx=ast.Store())], value=ast.parse(text, mode="eval").body)
+                    ast.copy_location(a, s)
+                    ast.fix_missing_locations(a)
+                    a._py2lean_comment = f"{self.srcline(s)}   [modelled effect: {key} = {text}]"
+                    stmts.append(a)
+                return self.block(stmts, env, loop, k)
+        if isinstance(s, ast.Assign) and len(s.targets) == 1 and isinstance(s.targets[0], ast.Name) and s.targets[0].id.startswith("<key>"):
+            key = s.targets[0].id[5:]
+            return self.comment(s) + self.stmt_value(s, s.value, env, loop, lambda e, env2: self.bind(key, self.coerce(e, env2[key].ty, s) if key in env2 else e, s, env2, loop, k), handlers=None)
+        # --- calls of other translated stateful methods as statements: `self.m(args)`
+        if isinstance(s, ast.Expr) and isinstance(s.value, ast.Call):
+            try:
+                res = self.resolve_call(s.value, env)
+            except Untranslatable:
+                res = None
+            if res is not None and res[0].state:
+                return self.comment(s) + self.stateful_call(s, s.value, res, env, loop, None, lambda e, env2: k(env2, loop))
+        # --- mutation of a local / state container
+        mt = self.mutation(s, env)
+        if mt is not None:
+            return self.comment(s) + self.stmt_mutation(s, mt, env, loop, k)
+        if isinstance(s, ast.Assign) and len(s.targets) == 1 and isinstance(s.targets[0], ast.Attribute) and self.target_key(s.targets[0], env) is not None and not self.spec.fields:
+            key = self.target_key(s.targets[0], env)
+            return self.comment(s) + self.stmt_value(s, s.value, env, loop, lambda e, env2: self.bind(key, self.coerce(e, env2[key].ty, s), s, env2, loop, k), handlers=None)
         if isinstance(s, ast.Return):
             return self.comment(s) + self.stmt_value(s, s.value if s.value is not None else ast.Constant(value=None), env, loop, lambda e, env2: self.emit_return(e, s, env2, loop), handlers=None)
         if isinstance(s, ast.Assign) and len(s.targets) == 1 and isinstance(s.targets[0], ast.Attribute) and dotted(s.targets[0]) is not None and dotted(s.targets[0]).startswith("self."):
@@ -1265,6 +1561,8 @@ class Translator:
                 return [f"let {ln} : {lean_ty(e.ty)} := {e.lean}"] + k(env3, loop)
 
             return self.comment(s) + self.stmt_value(s, s.value, env, loop, use_field, handlers=None)
+        if isinstance(s, ast.Assign) and len(s.targets) == 1 and isinstance(s.value, ast.ListComp) and any(isinstance(x, ast.NamedExpr) for x in ast.walk(s.value)):
+            return self.comment(s) + self.stmt_filter_walrus(s, env, loop, k)
         if isinstance(s, ast.Assign):
             if len(s.targets) != 1:
                 self.bad(s, "chained assignment")
@@ -1322,7 +1620,7 @@ class Translator:
             cls = e.id if isinstance(e, ast.Name) else (e.func.id if isinstance(e, ast.Call) and isinstance(e.func, ast.Name) else None)
             if cls is None or cls not in EXC_PARENT:
                 self.bad(s, "raise of something that is not a known exception class")
-            return self.comment(s) + self.wrap_error(f'"{cls}"', s, loop)
+            return self.comment(s) + self.wrap_error(f'"{cls}"', s, loop, env)
         if isinstance(s, ast.Try):
             return self.stmt_try(s, env, loop, k)
         if isinstance(s, ast.For):
@@ -1367,8 +1665,8 @@ class Translator:
             raises = ("IndexError",)
         else:
             fn, args = res
-            call_lean = self.apply(fn, args, node, env).lean
-            rty = fn.result
+            ce = self.apply(fn, args, node, env)
+            call_lean, rty = ce.lean, ce.ty
             raises = fn.raises
         env3 = dict(env)
         key = f"<tmp:{id(node)}>"
@@ -1397,9 +1695,9 @@ class Translator:
     def error_arm(self, raises, handlers, s, env, loop):
         """the `| .error …` arm(s) for a raising call"""
         if handlers is None:
-            if not self.spec.raises:
+            if not self.raises:
                 self.bad(s, f"a call that can raise {raises} outside try in a function declared pure")
-            return ["| .error e_ =>"] + ind(self.wrap_error("e_", s, loop))
+            return ["| .error e_ =>"] + ind(self.wrap_error("e_", s, loop, env))
         # which handler catches which class (first match wins)
         caught_by = {}
         for cls in raises:
@@ -1413,9 +1711,11 @@ class Translator:
         self.bad(s, f"the except clauses do not uniformly cover the declared exception classes {raises} of the call (partial handling is outside the subset)")
 
     def bind(self, target, e: E, s, env, loop, k):
-        if isinstance(target, ast.Name):
-            nm = target.id
-            ln = lean_name(nm)
+        if isinstance(target, str) or isinstance(target, ast.Name):
+            nm = target if isinstance(target, str) else target.id
+            ln = lean_name(nm.replace("self.", "self_"))
+            if nm in self.spec.locals and not (e.ty.kind == "List" and e.ty.args[0] == NONE):
+                e = self.coerce(e, parse_ty(self.spec.locals[nm]), s)
             ty = e.ty
             if ty.kind == "List" and ty.args[0] == NONE:
                 if nm in self.spec.locals:
@@ -1433,6 +1733,11 @@ class Translator:
                     self.bad(s, f"{nm!r} changes its type from {old} to {ty}")
             env2 = {k: v for k, v in env.items() if not k.startswith(nm + "[")}
             env2[nm] = Var(ln, ty)
+            if isinstance(s, ast.Assign) and isinstance(s.value, ast.Call) and isinstance(s.value.func, ast.Name) and s.value.func.id == "iter" and len(s.value.args) == 1:
+                src_key = self.target_key(s.value.args[0], env)
+                if src_key is None:
+                    self.bad(s, "iter() of something that is not a local / state container")
+                env2[nm] = Var(ln, ty, iter_of=src_key)
             drop_facts(env2, nm)
             if ty == NONE:
                 # the variable is None from here on: no Lean binding needed
@@ -1456,6 +1761,190 @@ class Translator:
                 drop_facts(env2, x.id)
             return lines + k(env2, loop)
         self.bad(s, "assignment target that is not a local name or a tuple of names")
+
+    # ---- mutation of containers ------------------------------------------
+
+    def target_key(self, node, env):
+        """env key of a mutable target: a local name or a state attribute `self.F`"""
+        d = dotted(node)
+        if d is not None and d in env:
+            return d
+        return None
+
+    def mutation(self, s, env):
+        """classify a statement as a container mutation -> (kind, key, [arg nodes]) or None"""
+        if isinstance(s, ast.Expr) and isinstance(s.value, ast.Call) and isinstance(s.value.func, ast.Attribute) and not s.value.keywords:
+            key = self.target_key(s.value.func.value, env)
+            if key is not None and (env[key].ty.kind, s.value.func.attr) in MUTATORS and not isinstance(s.value.func.value, ast.Name):
+                return ("method:" + s.value.func.attr, key, list(s.value.args))
+            if key is not None and isinstance(s.value.func.value, ast.Name) and (env[key].ty.kind, s.value.func.attr) in MUTATORS and s.value.func.attr != "append":
+                return ("method:" + s.value.func.attr, key, list(s.value.args))
+        if isinstance(s, ast.Assign) and len(s.targets) == 1 and isinstance(s.targets[0], ast.Subscript):
+            t = s.targets[0]
+            key = self.target_key(t.value, env)
+            if key is not None and env[key].ty.kind == "List":
+                if isinstance(t.slice, ast.Slice):
+                    if t.slice.step is not None:
+                        self.bad(s, "slice assignment with a step")
+                    none = ast.Constant(value=None)
+                    return ("setslice", key, [t.slice.lower or none, t.slice.upper or none, s.value])
+                return ("setitem", key, [t.slice, s.value])
+        if isinstance(s, ast.Delete) and len(s.targets) == 1 and isinstance(s.targets[0], ast.Subscript) and not isinstance(s.targets[0].slice, ast.Slice):
+            t = s.targets[0]
+            key = self.target_key(t.value, env)
+            if key is not None and env[key].ty.kind == "List":
+                return ("delitem", key, [t.slice])
+        return None
+
+    def stmt_mutation(self, s, mt, env, loop, k):
+        kind, key, args = mt
+        ty = env[key].ty
+        elt = ty.args[0]
+        if kind.startswith("method:"):
+            lean_fn, ptys, raises = MUTATORS[(ty.kind, kind[7:])]
+            ptys = [elt if t == "elt" else t for t in ptys]
+        elif kind == "setitem":
+            lean_fn, ptys, raises = "Pre.setItem", [INT, elt], ("IndexError",)
+        elif kind == "delitem":
+            lean_fn, ptys, raises = "Pre.delItem", [INT], ("IndexError",)
+        else:
+            lean_fn, ptys, raises = "Pre.setSlice", [Opt(INT), Opt(INT), ty], ()
+        if len(args) != len(ptys):
+            self.bad(s, f"{kind} with {len(args)} arguments")
+        value = args[0] if len(args) == 1 else (ast.Tuple(elts=args, ctx=ast.Load()) if args else ast.Constant(value=None))
+        if len(args) > 1:
+            ast.copy_location(value, s)
+            ast.fix_missing_locations(value)
+
+        def use(e, env2):
+            # a comprehension over an iterator uses it up (its value was computed just before)
+            used_up = set()
+            for a_ in args:
+                for x in ast.walk(a_):
+                    if isinstance(x, (ast.ListComp, ast.GeneratorExp)) and isinstance(x.generators[0].iter, ast.Name):
+                        used_up.add(x.generators[0].iter.id)
+            if used_up:
+                env2 = dict(env2)
+                for nm in used_up:
+                    if nm in env2 and env2[nm].iter_of:
+                        v_ = env2[nm]
+                        env2[nm] = Var("([] : " + lean_ty(v_.ty) + ")", v_.ty, iter_of=v_.iter_of, exhausted=True)
+            # an iterator over this container that is still in use would see the change
+            for nm, v in env2.items():
+                if not nm.startswith("<") and getattr(v, "iter_of", None) == key and not getattr(v, "exhausted", False):
+                    ok = kind == "setitem" and isinstance(args[0], ast.Name) and args[0].id == getattr(v, "index_name", None)
+                    if not ok:
+                        self.bad(s, f"{key} is changed while the iterator {nm!r} over it is still live (only `{key}[<enumerate index of the running loop>] = v` is supported)")
+            if loop is not None and getattr(loop, "iter_key", None) == key:
+                # the loop iterates this container: after changing it the loop must be left
+                env2 = dict(env2)
+                env2["<dirty>"] = Var("", NONE)
+            items = [e] if len(args) == 1 else (list(e.items) if args else [])
+            cur = env2[key]
+            parts = [cur.lean] + [P(self.coerce(x, t, s)) for x, t in zip(items, ptys)]
+            call = lean_fn + " " + " ".join(parts)
+            if not raises:
+                return self.bind(key, E(call, ty), s, env2, loop, k)
+            self.tmp += 1
+            tmp = f"v{self.tmp}_"
+            err = ["| .error e_ =>"] + ind(self.wrap_error("e_", s, loop, env2))
+            handlers = getattr(self, "_cur_handlers", None)
+            if handlers is not None:
+                err = self.error_arm(raises, handlers, s, env2, loop)
+            return [f"match {call} with"] + err + [f"| .ok {tmp} =>"] + ind(self.bind(key, E(tmp, ty, None, True), s, env2, loop, k))
+
+        if not args:
+            return use(None, env)
+        return self.stmt_value(s, value, env, loop, use, handlers=None)
+
+    def stateful_call(self, s, call, res, env, loop, handlers, cont):
+        """`self.m(args)` for a translated stateful method: pass the state, rebind it from the result"""
+        fn, args = res
+        ce = self.apply(fn, args, call, env)
+        keys = list(fn.state)
+        st_in = " ".join(env[key].lean for key in keys)
+        call_lean = ce.lean.replace(fn.lean, f"{fn.lean} {st_in}", 1) if not fn.extra else None
+        if call_lean is None:
+            self.bad(s, "stateful callee with extra arguments")
+        self.tmp += 1
+        r = f"r{self.tmp}_"
+        env2 = dict(env)
+        lines = [f"let {r} := {call_lean}"]
+        m = len(keys)
+        st = f"{r}" if (not fn.raises and fn.result == NONE) else f"{r}.1"
+        for i, key in enumerate(keys):
+            proj = "" if m == 1 else (".2" * i + (".1" if i < m - 1 else ""))
+            ln = lean_name(key.replace("self.", "self_"))
+            lines.append(f"let {ln} : {lean_ty(env[key].ty)} := {st}{proj}")
+            env2[key] = Var(ln, env[key].ty)
+            drop_facts(env2, key)
+        val = E("()", NONE, None, True) if fn.result == NONE else None
+        if not fn.raises:
+            if val is None:
+                val = E(f"{r}.2", fn.result, None, True)
+            return lines + cont(val, env2)
+        self.tmp += 1
+        tmp = f"v{self.tmp}_"
+        if handlers is None:
+            err = ["| .error e_ =>"] + ind(self.wrap_error("e_", s, loop, env2))
+        else:
+            err = self.error_arm(fn.raises, handlers, s, env2, loop)
+        ok_val = val if val is not None else E(tmp, fn.result, None, True)
+        return lines + [f"match {r}.2 with"] + err + [f"| .ok {tmp} =>"] + ind(cont(ok_val, env2))
+
+    def stmt_filter_walrus(self, s, env, loop, k):
+        """`ys = [x for x in xs if <cond with one `(v := e)` evaluated first>]`: the condition
+        becomes a local Boolean function whose body is `v = e; return <cond>` (same meaning: the
+        assignment expression is the first thing the condition evaluates), then `xs.filter`"""
+        comp = s.value
+        if len(comp.generators) != 1 or len(comp.generators[0].ifs) != 1 or not isinstance(comp.generators[0].target, ast.Name):
+            self.bad(s, "comprehension with an assignment expression that is not `[x for x in xs if cond]`")
+        g = comp.generators[0]
+        if not (isinstance(comp.elt, ast.Name) and comp.elt.id == g.target.id):
+            self.bad(s, "comprehension with an assignment expression whose element is not the loop variable")
+        cond = g.ifs[0]
+        walrus = [x for x in ast.walk(cond) if isinstance(x, ast.NamedExpr)]
+        if len(walrus) != 1:
+            self.bad(s, "more than one assignment expression in a comprehension condition")
+        w = walrus[0]
+        first = cond
+        while True:  # the sub-expression Python evaluates first
+            if first is w:
+                break
+            if isinstance(first, ast.BoolOp):
+                first = first.values[0]
+            elif isinstance(first, ast.Compare):
+                first = first.left
+            elif isinstance(first, ast.UnaryOp):
+                first = first.operand
+            else:
+                self.bad(s, "the assignment expression is not the first thing the condition evaluates")
+        it = self.plain(self.expr(g.iter, env), g.iter)
+        if it.ty.kind != "List":
+            self.bad(s, f"comprehension over a {it.ty}")
+        assign = ast.Assign(targets=[ast.Name(id=w.target.id, ctx=ast.Store())], value=w.value)
+        cond2 = _Subst(w, ast.Name(id=w.target.id, ctx=ast.Load())).visit(_copy(cond))
+        ret = ast.Return(value=cond2)
+        for x in (assign, ret):
+            ast.copy_location(x, s)
+            ast.fix_missing_locations(x)
+        assign._py2lean_comment = f"(condition) {w.target.id} := {ast.unparse(w.value)}"
+        ret._py2lean_comment = f"(condition) {ast.unparse(cond2)}"
+        saved = (self.result_ty, self.ret_lean_ty, self.raises)
+        self.result_ty, self.ret_lean_ty, self.raises = BOOL, "Bool", False
+        try:
+            x = lean_name(g.target.id)
+            env2 = dict(env)
+            env2[g.target.id] = Var(x, it.ty.args[0])
+            drop_facts(env2, g.target.id)
+            body = self.block([assign, ret], env2, None, lambda e, l: self.bad(s, "condition without value"))
+        finally:
+            self.result_ty, self.ret_lean_ty, self.raises = saved
+        self.tmp += 1
+        fn = f"p{self.tmp}_"
+        lines = [f"let {fn} ({x} : {lean_ty(it.ty.args[0])}) : Bool :="] + ind(body)
+        tgt = s.targets[0]
+        return lines + self.bind(tgt, E(f"{P(it)}.filter {fn}", it.ty), s, env, loop, k)
 
     def snapshot(self):
         return (self.tmp, self.nloops, list(self.aux), dict(self.loop_memo), self.njoin)
@@ -1663,11 +2152,17 @@ class Translator:
             return out + self.comment(b) + self.stmt_value(b, b.value if b.value is not None else ast.Constant(value=None), env, loop, lambda e, env2: self.emit_return(e, b, env2, loop), handlers)
         if isinstance(b, ast.Assign) and len(b.targets) == 1:
             return out + self.comment(b) + self.stmt_value(b, b.value, env, loop, lambda e, env2: self.bind(b.targets[0], e, b, env2, loop, k), handlers)
-        self.bad(s, "try body that is not a single assignment or return")
+        if isinstance(b, ast.Expr) and isinstance(b.value, ast.Call):
+            res = self.resolve_call(b.value, env)
+            if res is not None and res[0].state and res[0].raises:
+                return out + self.comment(b) + self.stateful_call(b, b.value, res, env, loop, handlers, lambda e, env2: k(env2, loop))
+        self.bad(s, "try body that is not a single assignment, return or call of a stateful method")
 
     # ---- loops ----------------------------------------------------------
 
     def loop_next(self, lc: LoopCtx, env, node):
+        if "<dirty>" in env:
+            self.bad(node, "the loop goes on iterating a container after changing it (only `change; break / return` is supported)")
         args = []
         for nm, ty in zip(lc.state, lc.state_tys):
             if nm not in env:
@@ -1677,7 +2172,28 @@ class Translator:
         return [f"{lc.fname}{lc.head} rest_" + "".join(" " + a for a in args)]
 
     def loop_fall(self, lc: LoopCtx, env, node):
-        return [".fall " + self.state_tuple(lc, env, node)]
+        """`break`"""
+        if not lc.has_break:
+            return [".fall " + self.state_tuple(lc, env, node)]
+        items = []
+        for nm, ty in zip(lc.state, lc.state_tys):
+            v = env[nm]
+            items.append(self.coerce(E(v.lean, v.ty, None, True, nm), ty, node).lean)
+        tys = []
+        for nm in lc.exports:
+            if nm not in env:
+                self.bad(node, f"{nm!r} is read after the loop but not defined at this `break`")
+            items.append(env[nm].lean)
+            tys.append(env[nm].ty)
+        if lc.export_tys is None:
+            lc.export_tys = tys
+        elif lc.export_tys != tys:
+            self.bad(node, "the variables read after the loop have different types at different `break`s")
+        if lc.rest_expr is not None:
+            items.append(lc.rest_expr)
+        if not items:
+            return [".brk ()"]
+        return [".brk " + (items[0] if len(items) == 1 and _is_atomic_text(items[0]) else "(" + ", ".join(items) + ")")]
 
     def state_tuple(self, lc, env, node):
         if not lc.state:
@@ -1711,60 +2227,112 @@ class Translator:
             return self.stmt_for_unrolled(s, env, loop, k)
         if loop is not None:
             self.bad(s, "nested loops")
-        if s.orelse:
-            self.bad(s, "for ... else")
+        has_break = any(isinstance(x, ast.Break) for st_ in s.body for x in ast.walk(st_))
+        if s.orelse and not has_break:
+            # without `break` the else clause simply runs after the loop
+            s2 = ast.For(target=s.target, iter=s.iter, body=s.body, orelse=[])
+            ast.copy_location(s2, s)
+            s2._py2lean_rest = list(s.orelse) + list(getattr(s, "_py2lean_rest", []))
+            return self.stmt_for(s2, env, loop, lambda e, l: self.block(s.orelse, e, l, k))
 
         def body(env1):
             it = self.plain(self.expr(s.iter, env1), s.iter)
             if it.ty.kind != "List":
                 self.bad(s, f"for over a {it.ty} (only lists)")
             elt = it.ty.args[0]
+            # a loop over an iterator variable (directly or through enumerate) consumes it
+            iter_var, via_enum = None, False
+            if isinstance(s.iter, ast.Name) and s.iter.id in env1 and env1[s.iter.id].iter_of:
+                iter_var = s.iter.id
+            elif isinstance(s.iter, ast.Call) and isinstance(s.iter.func, ast.Name) and s.iter.func.id == "enumerate" and len(s.iter.args) == 1 and isinstance(s.iter.args[0], ast.Name) and s.iter.args[0].id in env1 and env1[s.iter.args[0].id].iter_of:
+                iter_var, via_enum = s.iter.args[0].id, True
             assigned = assigned_names(s.body)
-            targets = [s.target.id] if isinstance(s.target, ast.Name) else ([x.id for x in s.target.elts] if isinstance(s.target, ast.Tuple) and all(isinstance(x, ast.Name) for x in s.target.elts) else None)
-            if targets is None:
-                self.bad(s, "loop target that is not a name / tuple of names")
-            state = [nm for nm in assigned if nm in env1 and nm not in targets]
+            for st_ in s.body:
+                for x in ast.walk(st_):
+                    if isinstance(x, ast.Expr):
+                        src_ = ast.unparse(x.value)
+                        for key_, _ in self.spec.effects.get(src_, []):
+                            if key_ not in assigned:
+                                assigned.append(key_)
+                    if isinstance(x, ast.Call):
+                        try:
+                            r_ = self.resolve_call(x, env1)
+                        except Exception:  # noqa: BLE001
+                            r_ = None
+                        if r_ is not None and r_[0].state:
+                            for key_ in r_[0].state:
+                                if key_ not in assigned:
+                                    assigned.append(key_)
+            targets = self.target_names(s.target)
+            state = [nm for nm in assigned if nm in env1 and nm not in targets and nm != iter_var]
             for nm in state:
                 if env1[nm].ty == NONE:
                     self.bad(s, f"loop state {nm!r} is None before the loop: its type inside the loop is unknown")
             state_tys = [env1[nm].ty for nm in state]
             used = free_names(s.body)
-            captured = [nm for nm in env1 if nm != FACTS and nm in used and nm not in state and nm not in targets and env1[nm].ty != NONE]
+            if self.spec.state:
+                # a return / raise inside the loop hands back the whole object state
+                used = used | {"self." + f for f in self.spec.state}
+            captured = [nm for nm in env1 if not nm.startswith("<") and nm in used and nm not in state and nm not in targets and env1[nm].ty != NONE and nm != iter_var]
             fname = f"{self.spec.name}.loop{self.nloops + 1}"
             head = self.opaque_args + "".join(" " + env1[nm].lean for nm in captured)
             lc = LoopCtx(fname, head, state, state_tys)
+            lc.has_break = has_break
+            it_src = s.iter.args[0] if isinstance(s.iter, ast.Call) and isinstance(s.iter.func, ast.Name) and s.iter.func.id == "enumerate" and len(s.iter.args) == 1 else s.iter
+            lc.iter_key = self.target_key(it_src, env1)
+            if has_break:
+                after_names = free_names(getattr(s, "_py2lean_rest", []))
+                lc.exports = [nm for nm in targets + [x for x in assigned if x not in env1] if nm in after_names and nm not in state]
+                if iter_var is not None:
+                    lc.rest_expr = "(rest_.map fun p_ => p_.2)" if via_enum else "rest_"
             # --- auxiliary definition
             env_b = {nm: env1[nm] for nm in captured}
             for nm, ty in zip(state, state_tys):
                 env_b[nm] = Var(env1[nm].lean, ty)
+            if iter_var is not None:
+                # inside the body the iterator is live; `xs[idx] = v` for the running index is allowed
+                idx_name = s.target.elts[0].id if via_enum and isinstance(s.target, ast.Tuple) and isinstance(s.target.elts[0], ast.Name) else None
+                v_ = env1[iter_var]
+                env_b[iter_var] = Var(v_.lean, v_.ty, iter_of=v_.iter_of, exhausted=False, index_name=idx_name)
             pat_x = "x_"
             lines_bind = []
             if isinstance(s.target, ast.Name):
                 pat_x = lean_name(s.target.id)
                 env_b[s.target.id] = Var(pat_x, elt)
             else:
-                if elt.kind != "Tup" or len(elt.args) != len(targets):
-                    self.bad(s, f"unpacking loop items of type {elt}")
-                m = len(targets)
-                for i, nm in enumerate(targets):
-                    proj = ".2" * i + (".1" if i < m - 1 else "")
-                    lines_bind.append(f"let {lean_name(nm)} : {lean_ty(elt.args[i])} := x_{proj}")
-                    env_b[nm] = Var(lean_name(nm), elt.args[i])
+                for py, ln_, ty_, term in self.destructure(s.target, "x_", elt, s):
+                    lines_bind.append(f"let {ln_} : {lean_ty(ty_)} := {term}")
+                    env_b[py] = Var(ln_, ty_)
             # known-None variables stay known inside the body
             for nm, v in env1.items():
-                if nm != FACTS and v.ty == NONE and nm not in env_b:
+                if not nm.startswith("<") and v.ty == NONE and nm not in env_b:
                     env_b[nm] = v
 
             def k_body(env2, loop2):
                 return self.loop_next(lc, env2, s)
 
+            if iter_var is not None and iter_var in used:
+                self.bad(s, f"the iterator {iter_var!r} is used inside the loop that consumes it")
             body_lines = self.block(s.body, env_b, lc, k_body)
             st_ty = "Unit" if not state else " × ".join(lean_ty(t, False) for t in state_tys)
-            binders = "".join(f" ({nm} : {ty})" for nm, ty in self.spec.opaque)
+            binders = (" " + self.implicit.strip() if self.implicit else "") + "".join(f" ({nm} : {ty})" for nm, ty in self.spec.opaque)
             binders += "".join(f" ({env1[nm].lean} : {lean_ty(env1[nm].ty)})" for nm in captured)
-            sig = " → ".join([f"List {lean_ty(elt, False)}"] + [lean_ty(t, True) for t in state_tys] + [f"Pre.Loop {_par(self.ret_lean_ty)} {_par(st_ty)}"])
+            if has_break:
+                if lc.export_tys is None:
+                    lc.export_tys = []
+                    if lc.exports:
+                        self.bad(s, "internal: break not reached")
+                brk_items = [lean_ty(t, False) for t in state_tys + lc.export_tys] + ([f"(List {lean_ty(it.ty.args[0].args[1] if via_enum else elt, False)})"] if lc.rest_expr is not None else [])
+                brk_ty = "Unit" if not brk_items else " × ".join(brk_items)
+                res_ty = f"Pre.LoopB {_par(self.ret_lean_ty)} {_par(st_ty)} {_par(brk_ty)}"
+            else:
+                res_ty = f"Pre.Loop {_par(self.ret_lean_ty)} {_par(st_ty)}"
+            sig = " → ".join([f"List {lean_ty(elt, False)}"] + [lean_ty(t, True) for t in state_tys] + [res_ty])
             st_pats = "".join(", " + env1[nm].lean for nm in state)
-            aux = [f"/-- the `{self.srcline(s)}` loop of `{self.spec.qualname}`: `.ret r` = the function returned `r` inside the loop, `.fall st` = the loop ended with loop state `st` -/", f"def {fname}{binders} : {sig}"]
+            what = "`.ret r` = the function returned `r` inside the loop, `.fall st` = the loop ran to its end with loop state `st`"
+            if has_break:
+                what += ", `.brk (st…, vars read after the loop…, items not consumed)` = the loop was left by `break`"
+            aux = [f"/-- the `{self.srcline(s)}` loop of `{self.spec.qualname}`: {what} -/", f"def {fname}{binders} : {sig}"]
             aux.append(f"  | []{st_pats} => .fall {self.state_tuple(lc, env_b, s)}")
             aux.append(f"  | {pat_x} :: rest_{st_pats} =>")
             aux += ["    " + ln for ln in lines_bind + body_lines]
@@ -1785,6 +2353,7 @@ class Translator:
             env_after = dict(env1)
             # the loop changed its state variables: facts about them no longer hold; the loop
             # target(s) keep the last item in Python - reading them after the loop is refused
+            # (after a `break` the ones that are read are handed over explicitly)
             for nm in state:
                 drop_facts(env_after, nm)
             for nm in targets:
@@ -1796,8 +2365,27 @@ class Translator:
                 fall_pat = env1[state[0]].lean
             else:
                 fall_pat = "(" + ", ".join(env1[nm].lean for nm in state) + ")"
-            after = k(env_after, None)
-            return [f"match {call} with", "| .ret r_ => r_", f"| .fall {fall_pat} =>"] + ind(after)
+            env_fall = dict(env_after)
+            if iter_var is not None:
+                v_ = env1[iter_var]
+                env_fall[iter_var] = Var("([] : " + lean_ty(v_.ty) + ")", v_.ty, iter_of=v_.iter_of, exhausted=True)
+            if not has_break:
+                after = k(env_fall, None)
+                return [f"match {call} with", "| .ret r_ => r_", f"| .fall {fall_pat} =>"] + ind(after)
+            # the else clause runs only when the loop was not left by `break`
+            after_fall = self.comment(s, "else:  (of the for loop)") + self.block(s.orelse, env_fall, None, k) if s.orelse else k(env_fall, None)
+            env_brk = dict(env_after)
+            pats = [env1[nm].lean for nm in state]
+            for nm, ty in zip(lc.exports, lc.export_tys):
+                env_brk[nm] = Var(lean_name(nm), ty)
+                pats.append(lean_name(nm))
+            if lc.rest_expr is not None:
+                v_ = env1[iter_var]
+                env_brk[iter_var] = Var(v_.lean, v_.ty, iter_of=v_.iter_of, exhausted=False)
+                pats.append(v_.lean)
+            brk_pat = "()" if not pats else (pats[0] if len(pats) == 1 else "(" + ", ".join(pats) + ")")
+            after_brk = k(env_brk, None)
+            return [f"match {call} with", "| .ret r_ => r_", f"| .fall {fall_pat} =>"] + ind(after_fall) + [f"| .brk {brk_pat} =>"] + ind(after_brk)
 
         return self.comment(s) + self.guarded(s, env, loop, body)
 
@@ -1967,8 +2555,12 @@ def assigned_names(stmts):
                 add(x.id)
             elif isinstance(x, ast.AugAssign) and isinstance(x.target, ast.Name):
                 add(x.target.id)
-            elif isinstance(x, ast.Call) and isinstance(x.func, ast.Attribute) and x.func.attr == "append" and isinstance(x.func.value, ast.Name):
-                add(x.func.value.id)
+            elif isinstance(x, ast.Call) and isinstance(x.func, ast.Attribute) and x.func.attr in ("append", "add", "remove", "discard", "clear", "pop") and dotted(x.func.value) is not None:
+                add(dotted(x.func.value))
+            elif isinstance(x, (ast.Subscript, ast.Attribute)) and isinstance(x.ctx, (ast.Store, ast.Del)):
+                d = dotted(x.value) if isinstance(x, ast.Subscript) else dotted(x)
+                if d is not None:
+                    add(d)
     return out
 
 
